@@ -31,7 +31,7 @@ SHARD_TIMEOUT = {"quick": 300, "thorough": 3600}
 
 
 def gen_cases(tier, seed):
-    n = 3000 if tier == "quick" else 400000
+    n = 3000 if tier == "quick" else 150000
     per = 50 if tier == "quick" else 500
     cases = []
     for b in range(0, n, per):
